@@ -5,6 +5,7 @@ An engine module provides
     execute(check, case, workdir)          -> Result
     shrink_world(check, case)              -> iterable of simpler cases (optional)
 """
+import fnmatch
 import hashlib
 import importlib
 import json
@@ -105,7 +106,7 @@ def execute_case(eng, check, case, sandbox):
         sandbox.drop(d)
 
 
-def minimise(eng, check, case, signature, sandbox, budget_s=25.0, max_exec=600):
+def minimise(eng, check, case, signature, sandbox, budget_s=25.0, max_exec=400):
     """ddmin over case['ops'] then engine world shrinks, while `signature` persists."""
     t0 = time.time()
     nexec = [0]
@@ -192,6 +193,7 @@ def worker_main(argv):
     if hasattr(eng, 'setup_worker'):
         eng.setup_worker(check, spec)
     indices = spec['indices']
+    known_patterns = spec.get('known_patterns', [])
     per_run_cap = spec.get('per_run_cap_s', 60)
     agg = {'runs': 0, 'steps': 0, 'digests': {}, 'traces': [], 'probes': {}, 'faults': {}, 'not_offered': {},
            'violations': {}, 'violation_counts': {}, 'harness_errors': [], 'samples': [], 'transitions': [],
@@ -242,9 +244,17 @@ def worker_main(argv):
             if sig in seen or sig in agg['violations']:
                 continue
             seen.add(sig)
+            if any(fnmatch.fnmatchcase(sig, pat) for pat in known_patterns):
+                # an open known finding: counted, example kept, not minimised
+                agg['violations'][sig] = {
+                    'signature': sig, 'run_index': i, 'run_seed': rs, 'case': case,
+                    'original_ops': len(case.get('ops', [])), 'minimised_ops': len(case.get('ops', [])),
+                    'minimiser_executions': 0, 'detail': v['detail'], 'step': v['step'],
+                    'digest': res.digest(), 'log': res.log[-40:]}
+                continue
             faulthandler.dump_traceback_later(per_run_cap * 6, exit=True)
             small, nexec = minimise(eng, check, case, sig, sandbox,
-                                    budget_s=spec.get('minimise_budget_s', 20.0))
+                                    budget_s=spec.get('minimise_budget_s', 8.0))
             faulthandler.cancel_dump_traceback_later()
             r2 = execute_case(eng, check, small, sandbox)
             det = [x for x in r2.violations if x['signature'] == sig]
